@@ -17,27 +17,35 @@ static void run_item(Ctx& ctx, const Item& it) {
   const char* mt = it.mtype == 0 ? "fft64" : "ntt120";
   std::vector<uint64_t> strides = it.full_strides ? std::vector<uint64_t>{N, N + 1, N + 3, 2 * N + 5} : std::vector<uint64_t>{N, N + 1};
   std::vector<int64_t> ps = {0};
-  if (op.has_p && op.model == 'r') ps = {1, (int64_t)N - 1, (int64_t)N + 3, -5};
-  if (op.has_p && op.model == 'a') ps = {3, (int64_t)(2 * N - 1), -3};
+  if (op.has_p && op.model == 'r') ps = {1, (int64_t)N - 1, (int64_t)N + 3, -5, 0, (int64_t)(2 * N), -(int64_t)(2 * N), (int64_t)N};
+  if (op.has_p && op.model == 'a') ps = {3, (int64_t)(2 * N - 1), -3, 1, (int64_t)(2 * N + 1), (int64_t)N + 1};
   std::vector<uint64_t> one = {N};
   const std::vector<uint64_t>& rsls = op.res_big ? one : strides;
   const std::vector<uint64_t>& asls = (op.a_big || op.nin < 1) ? one : strides;
   const std::vector<uint64_t>& bsls = (op.b_big || op.nin < 2) ? one : strides;
   ExecResult r;
-  for (uint64_t rs = 0; rs <= 3; ++rs)
-    for (uint64_t as = 0; as <= (op.nin >= 1 ? 3u : 0u); ++as)
-      for (uint64_t bs = 0; bs <= (op.nin >= 2 ? 3u : 0u); ++bs)
+  // limb counts: the complete box {0..3}^3 plus every combination of the larger counts {5, 9}
+  std::vector<uint64_t> SZ = {0, 1, 2, 3, 5, 9}, SZ0 = {0};
+  for (uint64_t rs : SZ)
+    for (uint64_t as : (op.nin >= 1 ? SZ : SZ0))
+      for (uint64_t bs : (op.nin >= 2 ? SZ : SZ0))
         for (uint64_t rsl : rsls) for (uint64_t asl : asls) for (uint64_t bsl : bsls)
           for (int64_t p : ps) {
             VecShape s; s.N = N; s.rs = rs; s.as = as; s.bs = bs; s.rsl = rsl; s.asl = asl; s.bsl = bsl; s.p = p; s.res_extra = 1;
-            ApiCase c = gen_vecop(mod, op, s, mt, it.cfg.name);
-            if (!ctx.want(c.id)) continue;
-            ctx.begin_case(c.id);
-            ExecOpts o; o.prefill = (int)((rs + as + bs) % 3);
-            execute(c, o, r);
-            std::string err = judge_model(c, r);
-            if (!err.empty()) ctx.violation(c.id, err);
-            ctx.end_case(c.nontrivial);
+            // out of place, and (size/stride semantics must not depend on it) with the output being the first input
+            for (int al = 0; al < 2; ++al) {
+              if (al && (op.nin < 1 || rsl != asl)) continue;
+              s.alias = al ? AL_RES_A : AL_NONE;
+              if (al && !alias_ok(op, canon_shape(op, s))) continue;
+              ApiCase c = gen_vecop(mod, op, s, mt, it.cfg.name);
+              if (!ctx.want(c.id)) continue;
+              ctx.begin_case(c.id);
+              ExecOpts o; o.prefill = (int)((rs + as + bs) % 3);
+              execute(c, o, r);
+              std::string err = judge_model(c, r);
+              if (!err.empty()) ctx.violation(c.id, err);
+              ctx.end_case(c.nontrivial);
+            }
           }
 }
 
@@ -144,7 +152,7 @@ int main(int argc, char** argv) {
   if (args.thorough()) { for (uint64_t N : NM) ns.push(N); for (uint64_t N : NL) ns.push(N); }
   extra.set("ring_dimensions", ns).set("ops", NVECOPS).set("cfgs", (int)cf.size());
   return ctx.finish("exploration",
-                    "nested product op x N x module type x cfg x (res_size,a_size,b_size) in {0..3}^3 x strides {N,N+1,N+3,2N+5} per small operand x p set; "
+                    "nested product op x N x module type x cfg x (res_size,a_size,b_size) in {0,1,2,3,5,9}^3 x strides {N,N+1,N+3,2N+5} per small operand x p set; "
                     "a case is non-trivial when res_size > 0 (something must be written); distinct = distinct case ids",
                     true, extra);
 }
